@@ -37,6 +37,9 @@ fn push_str_contract(pre: (Repr, Ghost), smax: usize) {
 }
 
 pub(crate) static mut SKIP_TEXT_PROBE: bool = false;
+/// with the memmove abstracted the bytes behind the insertion point are arbitrary, so the tail
+/// fact of `wf` (last byte < 0xC0) is not established by that harness
+pub(crate) static mut SKIP_WF: bool = false;
 /// insert_str("") still goes through reserve(0) (which un-shares); push_str("") returns early
 pub(crate) static mut IS_INSERT: bool = false;
 
@@ -66,7 +69,9 @@ pub(crate) fn append_post(
         }
         Ok(()) => {
             cov!(true, "append.ok_reachable");
-            obl!(wf(r), "append.wf", "C01,C03,C07,C20");
+            if !unsafe { SKIP_WF } {
+                obl!(wf(r), "append.wf", "C01,C03,C07,C20");
+            }
             let h = view(r);
             obl!(h.len == g.len + n, "append.len", "C01");
             // text' = text[..idx] ++ s ++ text[idx..]
@@ -537,13 +542,13 @@ fn push_str_modular(heap: bool, max_cap: usize) {
     let res = r.push_str(s);
     // call protocol
     if n == 0 {
-        obl!(unsafe { S_CALLS } == 0, "push_str.empty_returns_before_reserve", "C01");
+        sobl!(unsafe { S_CALLS } == 0, "push_str.empty_returns_before_reserve", "C01");
     } else {
-        obl!(unsafe { S_CALLS == 1 && S_ARG == n }, "push_str.calls_reserve_once_with_len_of_argument", "C01,C06,C11");
-        obl!(unsafe { S_UNTOUCHED_AT_CALL }, "push_str.nothing_written_before_reserve", "C02,C05");
+        sobl!(unsafe { S_CALLS == 1 && S_ARG == n }, "push_str.calls_reserve_once_with_len_of_argument", "C01,C06,C11");
+        sobl!(unsafe { S_UNTOUCHED_AT_CALL }, "push_str.nothing_written_before_reserve", "C02,C05");
     }
-    obl!(res.is_err() == unsafe { S_ERR }, "push_str.err_iff_reserve_err", "C01,C05");
-    obl!(f.no_alloc_calls(), "push_str.no_allocator_call_outside_reserve", "C03,C09,C11");
+    sobl!(res.is_err() == unsafe { S_ERR }, "push_str.err_iff_reserve_err", "C01,C05");
+    sobl!(f.no_alloc_calls(), "push_str.no_allocator_call_outside_reserve", "C03,C09,C11");
     append_post(&r, &f, g.len, sp, n, &pr, res);
 }
 
@@ -583,37 +588,39 @@ fn push_str_mod_reach() {
 // ---------------------------------------------------------------------------------------
 
 /// contract of `core::ptr::copy` (memmove) as a frame: the only bytes that may change are
-/// `[dst, dst + count)`; both ranges must be in bounds. Used by the class-U frame harnesses
+/// `[dst, dst + count)`; both ranges must be in bounds; the first and the last byte of the
+/// destination get the first and last byte of the source (so a text's final byte stays final). Used by the class-U frame harnesses
 /// (CBMC does not terminate on an intra-object memmove of symbolic object size; the byte-exact
 /// result of the move is proved with the real `ptr::copy` at concrete capacities, class B).
 pub(crate) unsafe fn copy_havoc<T>(src: *const T, dst: *mut T, count: usize) {
     let n = count * core::mem::size_of::<T>();
     if n > 0 {
-        let k: usize = kani::any();
-        kani::assume(k < n);
         unsafe {
+            // memmove semantics for the two end bytes (read before anything is written) ...
+            let first = *(src as *const u8);
+            let last = *(src as *const u8).add(n - 1);
+            // ... any value for a byte in between (one symbolic position stands for all)
+            let k: usize = kani::any();
+            kani::assume(k < n);
             let _ = *(src as *const u8).add(k);
             *(dst as *mut u8).add(k) = kani::any();
-            // first and last byte too, so that every out-of-bounds range is caught
-            let _ = *(src as *const u8).add(n - 1);
-            *(dst as *mut u8).add(n - 1) = kani::any();
-            let _ = *(src as *const u8);
-            *(dst as *mut u8) = kani::any();
+            *(dst as *mut u8) = first;
+            *(dst as *mut u8).add(n - 1) = last;
         }
     }
 }
 
-struct RemoveSpec {
-    idx: usize,
-    w: usize,
-    ch: u32,
-    j: usize,
-    jb: u8,
+pub(crate) struct RemoveSpec {
+    pub idx: usize,
+    pub w: usize,
+    pub ch: u32,
+    pub j: usize,
+    pub jb: u8,
 }
 
 /// `requires` of remove as String states it (idx < len, on a char boundary) plus the local
 /// UTF-8 facts at the inspected positions; returns the expected results
-fn remove_requires(r: &Repr, g: &Ghost) -> RemoveSpec {
+pub(crate) fn remove_requires(r: &Repr, g: &Ghost) -> RemoveSpec {
     let idx: usize = kani::any();
     kani::assume(idx < g.len);
     let tp = text_ptr(r, g);
@@ -633,7 +640,7 @@ fn remove_requires(r: &Repr, g: &Ghost) -> RemoveSpec {
     RemoveSpec { idx, w, ch, j, jb }
 }
 
-fn remove_post(r: &Repr, f: &Frame, sp: &RemoveSpec, res: Result<char, ReserveError>, content: bool) {
+pub(crate) fn remove_post(r: &Repr, f: &Frame, sp: &RemoveSpec, res: Result<char, ReserveError>, content: bool) {
     let g = f.g;
     match res {
         Err(_) => {
@@ -687,10 +694,10 @@ fn remove_modular(pre: (Repr, Ghost)) {
     let f = Frame::snapshot(&r, &g);
     stub_arm(&r, &f);
     let res = r.remove(sp.idx);
-    obl!(unsafe { S_CALLS == 1 }, "remove.calls_ensure_modifiable_once", "C01,C02");
-    obl!(unsafe { S_UNTOUCHED_AT_CALL }, "remove.nothing_written_before_ensure_modifiable", "C02,C05");
-    obl!(res.is_err() == unsafe { S_ERR }, "remove.err_iff_ensure_modifiable_err", "C01,C05");
-    obl!(f.no_alloc_calls(), "remove.no_allocator_call_outside_ensure_modifiable", "C03,C09");
+    sobl!(unsafe { S_CALLS == 1 }, "remove.calls_ensure_modifiable_once", "C01,C02");
+    sobl!(unsafe { S_UNTOUCHED_AT_CALL }, "remove.nothing_written_before_ensure_modifiable", "C02,C05");
+    sobl!(res.is_err() == unsafe { S_ERR }, "remove.err_iff_ensure_modifiable_err", "C01,C05");
+    sobl!(f.no_alloc_calls(), "remove.no_allocator_call_outside_ensure_modifiable", "C03,C09");
     remove_post(&r, &f, &sp, res, true);
 }
 
@@ -796,7 +803,7 @@ fn remove_frame_reach() {
 // insert_str
 // ---------------------------------------------------------------------------------------
 
-fn insert_requires(r: &Repr, g: &Ghost) -> usize {
+pub(crate) fn insert_requires(r: &Repr, g: &Ghost) -> usize {
     let idx: usize = kani::any();
     // String::insert_str accepts exactly the char boundaries 0..=len
     kani::assume(spec_boundary(r, g, idx));
@@ -821,10 +828,10 @@ fn insert_str_modular(heap_cap: Option<usize>, max: usize) {
     stub_arm(&r, &f);
     unsafe { IS_INSERT = true };
     let res = r.insert_str(idx, s);
-    obl!(unsafe { S_CALLS == 1 && S_ARG == n }, "insert_str.calls_reserve_once_with_len_of_argument", "C01,C06,C11");
-    obl!(unsafe { S_UNTOUCHED_AT_CALL }, "insert_str.nothing_written_before_reserve", "C02,C05");
-    obl!(res.is_err() == unsafe { S_ERR }, "insert_str.err_iff_reserve_err", "C01,C05");
-    obl!(f.no_alloc_calls(), "insert_str.no_allocator_call_outside_reserve", "C03,C09,C11");
+    sobl!(unsafe { S_CALLS == 1 && S_ARG == n }, "insert_str.calls_reserve_once_with_len_of_argument", "C01,C06,C11");
+    sobl!(unsafe { S_UNTOUCHED_AT_CALL }, "insert_str.nothing_written_before_reserve", "C02,C05");
+    sobl!(res.is_err() == unsafe { S_ERR }, "insert_str.err_iff_reserve_err", "C01,C05");
+    sobl!(f.no_alloc_calls(), "insert_str.no_allocator_call_outside_reserve", "C03,C09,C11");
     cov!(res.is_ok() && idx > 0 && idx < g.len && n > 0, "insert_str.middle");
     append_post(&r, &f, idx, sp, n, &pr, res);
 }
@@ -927,10 +934,10 @@ fn retain_contract(pre: (Repr, Ghost), modular: bool) {
         d
     });
     if modular {
-        obl!(unsafe { S_CALLS == 1 }, "retain.calls_ensure_modifiable_once", "C01,C02");
-        obl!(unsafe { S_UNTOUCHED_AT_CALL }, "retain.nothing_written_before_ensure_modifiable", "C02,C05");
-        obl!(res.is_err() == unsafe { S_ERR }, "retain.err_iff_ensure_modifiable_err", "C01,C05");
-        obl!(f.no_alloc_calls(), "retain.no_allocator_call_outside_ensure_modifiable", "C03,C09");
+        sobl!(unsafe { S_CALLS == 1 }, "retain.calls_ensure_modifiable_once", "C01,C02");
+        sobl!(unsafe { S_UNTOUCHED_AT_CALL }, "retain.nothing_written_before_ensure_modifiable", "C02,C05");
+        sobl!(res.is_err() == unsafe { S_ERR }, "retain.err_iff_ensure_modifiable_err", "C01,C05");
+        sobl!(f.no_alloc_calls(), "retain.no_allocator_call_outside_ensure_modifiable", "C03,C09");
     }
     match res {
         Err(_) => {
